@@ -502,7 +502,21 @@ func main() {
 		var errb bytes.Buffer
 		cmd.Stderr = &errb
 		cmd.Stdout = &errb
-		err := cmd.Run()
+		// (they take a few seconds; a publisher that keeps a lock for ever stops them for good)
+		limit := ev.Pick(r, 4*time.Minute, 20*time.Minute)
+		err := cmd.Start()
+		if err == nil {
+			done := make(chan error, 1)
+			go func() { done <- cmd.Wait() }()
+			select {
+			case err = <-done:
+			case <-time.After(limit):
+				cmd.Process.Kill()
+				<-done
+				err = fmt.Errorf("no result after %v", limit)
+				errb.WriteString("\npanic: hang: the single-goroutine histories did not finish (a call never returned)")
+			}
+		}
 		if _, statErr := os.Stat(pf); statErr == nil {
 			r.Absorb(pf, "")
 			os.Remove(pf)
